@@ -15,9 +15,10 @@ import numpy as np
 
 from sx import install, stubs
 from .common import (LABELS, MAB, NP_QUICK, Scenario, ask, compositions, gen_batch, needs_contexts, new_mab,
-                     outputs_equal, reward_kind, trained)
+                     outputs_equal, pyval, reward_kind, same_value, trained)
 
 KF_TREE = 'KF-C05-treebandit-bandit-level-generator'
+KF_LINTS = 'KF-C05-lints-neighbourhood-generator'
 
 
 # ---- 1. exact cover ---------------------------------------------------------------------------------------------
@@ -69,21 +70,50 @@ def locality(env, lp, npol, N, m, A=2, d=1, is_predict=False, twin=False):
         seeds[i] = env.integer('rowseed_%d' % i, 0, 2 ** 31 - 2)
     if not env.sym:
         seeds = np.array([int(s) for s in seeds])
+    n0 = len(env.log)
     whole = copy.deepcopy(imp)._predict_contexts(q, is_predict, seeds, 0)
+    log_whole = env.log[n0:]
     split = env.choose('chunks', [c for c in compositions(m, m) if len(c) > 1])
     tree_rng = npol == 'tree' and lp in ('thompson', 'greedy')
+    lints = lp == 'lints'
     parts = []
     pos = 0
     shared = copy.deepcopy(imp)
     parts_shared = []
+    n1 = len(env.log)
     for size in split:
         clone = copy.deepcopy(imp)             # what a process based back end does by pickling the bound method
         parts.extend(clone._predict_contexts(q[pos:pos + size], is_predict, seeds[pos:pos + size], pos))
-        if tree_rng:
-            parts_shared.extend(shared._predict_contexts(q[pos:pos + size], is_predict, seeds[pos:pos + size], pos))
         pos += size
+    log_parts = env.log[n1:]
+    if tree_rng:
+        pos = 0
+        for size in split:
+            parts_shared.extend(shared._predict_contexts(q[pos:pos + size], is_predict, seeds[pos:pos + size], pos))
+            pos += size
     env.ob('count', len(parts) == len(whole) == m)
+    alt_lints = None
+    if lints:
+        # bug-compatible reference for the listed LinTS finding: the sampler is called with equal distribution parameters
+        # in both runs (only the position of the generator the arm models draw from differs)
+        mv_w = [c for c in log_whole if c[0] == 'multivariate_normal']
+        mv_p = [c for c in log_parts if c[0] == 'multivariate_normal']
+        conds = [len(mv_w) == len(mv_p)]
+        for cw, cp in zip(mv_w, mv_p):
+            for x, y in zip(list(np.asarray(cw[1], dtype=object).reshape(-1)) + list(np.asarray(cw[2], dtype=object).reshape(-1)),
+                            list(np.asarray(cp[1], dtype=object).reshape(-1)) + list(np.asarray(cp[2], dtype=object).reshape(-1))):
+                conds.append(env.eq(x, y))
+        alt_lints = env.and_(*conds)
     for i in range(min(len(parts), len(whole))):
+        if lints:
+            w, p_ = whole[i], parts[i]
+            if isinstance(w, dict) and isinstance(p_, dict) and list(w) == list(p_):
+                for k in w:
+                    env.ob('row%d[%s]' % (i, k), same_value(env, w[k], p_[k]), kf=KF_LINTS, alt=alt_lints)
+            else:
+                env.ob('row%d.arm' % i, same_value(env, pyval(w), pyval(p_)) if not isinstance(w, dict) else False,
+                       kf=KF_LINTS, alt=alt_lints)
+            continue
         outputs_equal(env, 'row%d' % i, whole[i], parts[i], KF_TREE if tree_rng else None,
                       parts_shared[i] if tree_rng else None)
     if twin:
